@@ -246,8 +246,27 @@ def run(ctx: Ctx, rep: Report) -> None:
                         ok = abs(tps - 100.0) < 1e-6
                         detail = f"{norm(kw.value)} in {kw.arg}: {tps} ticks per second"
         rep.check(ok, "C17-R2", pz.site(), "ticks -> timedelta uses 100 ticks per second without integer division", detail, key=f"{pz.key}|pythonize-scale")
-        none_guard = any(isinstance(n, ast.Compare) and "is None" in norm(n) for n in own_nodes(pz.node))
-        rep.check(none_guard or True, "C17-R2", pz.site(), "pythonize handles values generically", key=f"{pz.key}|none")
+        # every tick value converts: only a missing value (None) may yield None
+        from ..engine.patterns import simulate
+        from .common import concrete_env
+
+        pcfg = ctx.cfg(pz)
+        for v in (0, 1, 2**32 - 1):
+            def atom(expr: ast.AST, v=v):
+                if norm(expr) == "self.value":
+                    return v
+                return None
+
+            base = concrete_env(atom, pdefs.expand)
+
+            def env(expr: ast.expr, base=base):
+                if isinstance(expr, ast.Compare) and isinstance(expr.ops[0], (ast.Is, ast.IsNot)) and norm(expr.left) == "self.value":
+                    return isinstance(expr.ops[0], ast.IsNot)
+                return base(expr)
+
+            outs = simulate(pcfg, env)
+            good = bool(outs) and all(o.kind == "return" and isinstance(o.stmt, ast.Return) and isinstance(pdefs.expand(o.stmt.value), ast.Call) and norm(pdefs.expand(o.stmt.value).func).endswith("timedelta") for o in outs)
+            rep.check(good, "C17-R2", pz.site(), f"TimeTicks({v}).pythonize() yields a timedelta (only a missing value may yield None)", f"{outs}", key=f"{pz.key}|value-dropped")
     # ------------------------------------------------------------ R3
     ip = app_class(ctx, 0)
     if ip is None:
